@@ -441,9 +441,9 @@ def fault_stream(ctx, bdir, shim):
                     ctx.hist("faults.class", job[1])
                     ctx.hist("faults.outcome", "rc=0" if rc == 0 else ("timeout" if rc == "timeout" else ("signal" if rc < 0 else "rc!=0")))
                     if rc == "timeout":
-                        # lmplz: an exception raised while chains are running (file creation fails) unwinds through ~Chains,
+                        # lmplz / interpolate (util::stream pipelines): an exception raised while chains are running unwinds through ~Chains,
                         # which joins worker threads that never receive poison (deadlock; no success reported)
-                        key = KNOWN_HANG if (tool.name.startswith("lmplz") and job[1] in ("mkstemp", "ftruncate", "open") and fired) else None
+                        key = KNOWN_HANG if ((tool.name.startswith("lmplz") or tool.name == "interpolate") and fired) else None
                         totals["hangs"] = totals.get("hangs", 0) + 1
                         if ctx.violation("%s hangs (no exit within the timeout) after %s #%d failed with %s" % (
                                 tool.name, job[1], job[2], job[3]), with_inputs(replay, base), key=key):
